@@ -43,7 +43,7 @@ def all_jobs(harness, grammars, maxlen_by_nterm, extra=None, split_from=3):
     return jobs
 
 
-NEAR_BASES = {"G1": 3, "G2": 2, "G3": 3, "G4": 2, "G5": 3, "G6": 2, "G7": 3, "G8": 2, "G9": 3, "G10": 4, "G11": 2, "G12": 4, "G13": 4, "G14": 3, "G15": 4, "G16": 2, "G17": 2, "G18": 2}
+NEAR_BASES = {"G1": 3, "G2": 2, "G3": 3, "G4": 2, "G5": 3, "G6": 2, "G7": 3, "G8": 2, "G9": 3, "G10": 4, "G11": 2, "G12": 4, "G13": 4, "G14": 3, "G15": 4, "G16": 2, "G17": 2, "G18": 2, "G19": 4}
 
 
 def near_jobs(harness, grammars, edits, extra=None):
@@ -84,6 +84,34 @@ def simple_plan(prop, harness, rule, assumptions, extra_params=None):
     return plan
 
 
+def plan_C10(tier, seed):
+    b = BOUNDS["C10"][tier]
+    jobs = []
+    for n in range(0, b["max_terms"] + 1):
+        jobs.append({"harness": "hC10.c", "params": {"family": 0, "nterm": n}, "weight": 6 ** n})
+    for nr in range(1, b["max_rules"] + 1):
+        for l0 in range(0, b["max_rhs"] + 1):
+            jobs.append({"harness": "hC10.c", "params": {"family": 1, "nrules": nr, "len0": l0, "maxl": b["max_rhs"], "pool": b["pool"]}, "weight": (b["pool"] ** b["max_rhs"]) ** nr})
+    jobs.append({"harness": "hC10.c", "params": {"family": 2}, "weight": 50})
+    jobs.append({"harness": "hC10.c", "params": {"family": 3}, "weight": 5})
+    wit = [{"harness": "hC10.c", "params": {"family": 3, "witness": 1}}]
+    return {"jobs": jobs, "witness": wit, "bounds": b,
+            "rule": "one state = one grammar definition distinguished by yaep_read_grammar: family 0 = up to max_terms terminals with names from {a,b,c,error,$S,$eof} and codes from {INT_MIN,-1,0,1,2,255,INT_MAX}, chosen lazily when yaep asks for them; family 1 = up to max_rules rules over {S,A,a,b[,B]} with right-hand sides up to max_rhs; family 2 = one rule with abstract node or not, cost symbolic over all int, translation list of up to 3 symbolic non-negative ints; family 3 = one reserved/terminal/undeclared name as left-hand side or in a right-hand side of the first or a later rule; strict_p symbolic",
+            "assumptions": ["well-formedness oracle: direct definitions (nullable/productive fixpoints, transitive closure for self-derivation, reachability)"]}
+
+
+def plan_C11(tier, seed):
+    b = BOUNDS["C11"][tier]
+    jobs = [{"harness": "hC11.c", "params": {"mode": 0, "grammar": GIDX[g], "maxlen": b["maxlen"]}, "weight": 100} for g in b["grammars"]]
+    for n in range(1, b["nbytes"] + 1):
+        jobs.append({"harness": "hC11.c", "params": {"mode": 1, "nbytes": n}, "weight": 30 ** n})
+    jobs.append({"harness": "hC11.c", "params": {"mode": 2}, "weight": 20})
+    wit = [{"harness": "hC11.c", "params": {"mode": 2, "witness": 1}}]
+    return {"jobs": jobs, "witness": wit, "bounds": b,
+            "rule": "mode 0: one state = (catalogue grammar rendered as text, layout style x optional semicolons x comment x symbolic white-space byte, one_parse); inside the path the text-defined and the callback-defined twin are compared on every token sequence up to maxlen; mode 1: one state = one class of byte strings of the stated length that the lexer/parser distinguishes (bytes fully symbolic); mode 2: character constant with symbolic character 1..127",
+            "assumptions": ["denoted grammar of a rendering computed by the harness (implicit codes 256.. in order of appearance)", "characters above 127 in character constants are outside the claim (char signedness)"]}
+
+
 TREE_ORACLE = "translation oracle: exhaustive enumeration of all derivations over all splits with the documented translation rules (spec/oracle.h), hash-consed; DAG side: one alternative per ALT occurrence"
 
 PROPS = {
@@ -95,5 +123,7 @@ PROPS = {
     "C07": {"plan": simple_plan("C07", "hRec.c", "one state = (grammar, token sequence, lookahead x recovery x one_parse, recovery_match); the tree is matched against the translations of every repaired input with the reported total of replaced tokens", [TREE_ORACLE, "repairs enumerated for at most 3 syntax_error calls per input"], {"only_errors": 0}), "home_faults": False, "label_prefix": "C07:"},
     "C08": {"plan": simple_plan("C08", "hRec.c", "one state = (grammar, non-sentence, lookahead x one_parse, recovery_match); minimal simple-recovery cost computed by the viable-prefix oracle over all (back position, forward skip) pairs", ["viable-prefix oracle (spec/oracle.h)"]), "home_faults": False, "label_prefix": "C08:"},
     "C09": {"plan": simple_plan("C09", "hC09.c", "one state = (grammar, input from ALL(N) or NEAR(k), one_parse x cost x recovery); inside the path the input is parsed with lookahead 0,1,2,-3,7 and debug levels 0,1,-1,6,3 and all observables are compared; with -DYAEP_VERIF every goto-cache hit is re-computed and compared", ["debug output goes to a sink (fprintf model evaluates arguments only)"]), "home_faults": False},
+    "C10": {"plan": plan_C10, "home_faults": False},
+    "C11": {"plan": plan_C11, "home_faults": False},
     "C05": {"plan": simple_plan("C05", "hC05.c", "one state = (grammar, sentence, lookahead x one_parse x cost)", [TREE_ORACLE, "derivation count capped at 1000"]), "home_faults": False},
 }
